@@ -733,6 +733,17 @@ def gen_c02(tape, tier):
         for dst in (up, inside):
             starts[0].links.append((dst, dst.url))
         pages += [up, top, inside]
+    if opts['no_parent'] and not np_root and tape.chance(1, 3, 'np.start_redirects_out'):
+        # a second start URL inside the start directory that redirects out of it: for a redirect only the host rule is waived
+        outside = [p for p in pages if p.origin.key() == main.key() and not p.path.startswith(starts[0].dir)]
+        dst = outside[tape.draw(len(outside), 'np.sro.dst')] if outside else site.add(main, '/outside.html', 'page')
+        if dst not in pages:
+            pages.append(dst)
+        rr = site.add(main, starts[0].dir + 'leave', 'redirect')
+        rr.redirect_to = dst
+        rr.redirect_code = tape.choice((301, 302, 307), 'np.sro.code')
+        rr.redirect_spelling = refsite.spell(tape, rr, dst)
+        starts = list(starts) + [rr]
     # cross-host redirect
     if nhosts >= 2 and tape.chance(1, 2, 'site.xredirect'):
         rr = site.add(main, '/d1/xr' if opts['no_parent'] else '/xr', 'redirect')
@@ -850,7 +861,7 @@ def judge_c02(r, site, starts, opts, out, rows, own_hosts=None, phase=''):
         u = refscope.parse(canon(e['url']))
         record = {'level': rec['level'], 'inline_level': rec['inline_level'], 'try_count': rec['try_count'],
                   'parent': refscope.parse(canon(rec['parent_url'])) if rec['parent_url'] else None,
-                  'root': refscope.parse(canon(rec['root_url'])) if rec['root_url'] else None}
+                  'root': refscope.parse(canon(rec['root_url'] or rec['url']))}       # (an item without a recorded root is its own root: a start URL)
         ok, failed = refscope.passes(u, record, opts, own)
         if ok:
             continue
@@ -892,7 +903,7 @@ def judge_c02_robots(r, site, starts, opts, out, own_hosts=None, phase=''):
         if res is not None and res.kind == 'redirect' and res.redirect_to is not None:
             record = {'level': rec['level'], 'inline_level': rec['inline_level'], 'try_count': rec['try_count'],
                       'parent': refscope.parse(canon(rec['parent_url'])) if rec['parent_url'] else None,
-                      'root': refscope.parse(canon(rec['root_url'])) if rec['root_url'] else None}
+                      'root': refscope.parse(canon(rec['root_url'] or rec['url']))}       # (an item without a recorded root is its own root: a start URL)
             ok, failed = refscope.passes(refscope.parse(canon(res.redirect_to.url)), record, opts, own)
             if ok or (opts.get('strong_redirects', True) and failed == ['span_hosts']):
                 visited[rec['url']].add(res.redirect_to.origin.key())
@@ -904,7 +915,7 @@ def judge_c02_robots(r, site, starts, opts, out, own_hosts=None, phase=''):
         u = refscope.parse(canon(rec['url']))
         record = {'level': rec['level'], 'inline_level': rec['inline_level'], 'try_count': rec['try_count'],
                   'parent': refscope.parse(canon(rec['parent_url'])) if rec['parent_url'] else None,
-                  'root': refscope.parse(canon(rec['root_url'])) if rec['root_url'] else None}
+                  'root': refscope.parse(canon(rec['root_url'] or rec['url']))}       # (an item without a recorded root is its own root: a start URL)
         ok, failed = refscope.passes(u, record, opts, own)
         item_origin = (u['scheme'], u['host'], u['port'])
         if ok and origin == item_origin:
